@@ -325,7 +325,20 @@ func genBigImport(r *rand.Rand, tier, id string) Case {
 	return c
 }
 
+// the same large tree imported under faults: every batch write of the importer (the background
+// batches included) and a sample of the other calls
+func genBigFaultImport(r *rand.Rand, tier, id string) Case {
+	c := Case{ID: id, Kind: "m1", Params: []string{"iv=-"}, Cfgs: []string{"cache=1000,fast=false,flush=100000,sync=false,backend=memdb,wrap=true"}}
+	n := 5050
+	for i := 0; i < n; i++ {
+		c.Ops = append(c.Ops, []string{"set", hx([]byte(fmt.Sprintf("key%06d", r.Intn(1<<20)))), hx([]byte(strconv.Itoa(i)))})
+	}
+	c.Ops = append(c.Ops, []string{"save"}, []string{"fault", "import", "1"})
+	return c
+}
+
 func init() {
+	generators["C17big"] = genBigFaultImport
 	runners["imp"] = runImp
 	generators["C10h"] = genImp
 	generators["C10big"] = genBigImport
